@@ -272,3 +272,14 @@ Proof.
     unfold set_header. rewrite (gt32_no_crlf _ (make_abs_printable _ _ _ He Ev Hr)). cbn [bind].
     apply make_abs_unchanged. exact (origin_has_alpha_scheme _ _ He Ho).
 Qed.
+
+(* a Location that reaches _HTTPMove.__call__ by another door than the location= argument (headers=[...],
+   exc.headers[...] = ...): no CR/LF hypothesis is needed for a scheme-less value, it is percent-encoded *)
+Lemma move_call_any_door e v : env_ok e -> v <> [] -> has_alpha_scheme v = false ->
+  exists r, move_call e (Some v) false = JOk r /\ same_origin e r.
+Proof.
+  intros He Hne Ev. destruct (make_abs_same_origin e v He Ev) as (r & Hr & Ho). exists r. split; [|exact Ho].
+  unfold move_call, resolve_move. destruct v as [|c v]; [congruence|]. cbn [is_empty]. rewrite Hr. cbn [bind].
+  unfold set_header. rewrite (gt32_no_crlf _ (make_abs_printable _ _ _ He Ev Hr)). cbn [bind].
+  apply make_abs_unchanged. exact (origin_has_alpha_scheme _ _ He Ho).
+Qed.
